@@ -850,7 +850,7 @@ func genBig(id int, seed int64) SeqCase {
 		ts = append(ts, must(triple.New(s0, p0, oi)), must(triple.New(si, p0, o0)), must(triple.New(s0, pi, o0)))
 	}
 	// a fourth family with pairwise different answers per question: (s_i, r_i, o_i) for the first `many` indices
-	const many = 300
+	const many = 264
 	var ds []*triple.Triple
 	for i := 0; i < many; i++ {
 		oi := triple.NewNodeObject(must(node.Parse(fmt.Sprintf("/o<%04d>", i))))
